@@ -419,7 +419,8 @@ fn replay(args: &[String]) -> i32 {
         }
     };
     if doc["kind"] == "real-bridge" {
-        return bridge::replay(&doc, file);
+        let verif = PathBuf::from(arg_value(args, "--verif").unwrap_or_else(|| "/verif".into()));
+        return bridge::replay(&doc, file, &verif);
     }
     let plan = Plan::from_json(&doc["plan"]);
     let exe = std::env::current_exe().expect("current_exe");
